@@ -4,6 +4,9 @@
 //! r_1..r_L with r_j annotated to l_1..l_j. Background = l_1..l_N, sample = l_s..l_{s+n-1}:
 //! record j realises K = min(j,N), k = clamp(j-s+1, 0, n). Sweeping all n <= N, s <= N-n+1 realises
 //! every admissible (N,K,n,k).
+//! The staircase is the same in the three kinds (same ids, same leaves); so that a read of another kind's links
+//! cannot go unnoticed, every staircase ontology carries one more record per kind, with ONE id (XREC) in all kinds
+//! but a kind-specific layout: genes on the leaves 1, 5, 9, .., OMIM on the odd leaves, ORPHA on every third leaf.
 
 use crate::bigint::Binomials;
 use crate::ctx::{guard, Ctx};
@@ -16,6 +19,16 @@ use serde_json::json;
 
 const LEAF0: u32 = 100; // leaf i (1-based) has id LEAF0 + i
 const REC0: u32 = 5000; // record j (1-based) has id REC0 + j
+const XREC: u32 = 4242; // the extra record whose layout differs between the kinds
+
+/// leaves the extra record of a kind is annotated to
+fn extra_on(kind: Kind, i: usize) -> bool {
+    match kind {
+        Kind::Gene => i % 4 == 1,
+        Kind::Omim => i % 2 == 1,
+        Kind::Orpha => i % 3 == 0,
+    }
+}
 
 thread_local! {
     /// record ids of the staircase in use, by record number (None: REC0 + j)
@@ -46,6 +59,9 @@ fn staircase(l: usize, kinds: &[Kind]) -> Ontology {
                 f.anns.push(Facts::ann(k, rec_id(j), &format!("R{j}"), Some(LEAF0 + i)));
             }
         }
+        for i in (1..=l).filter(|i| extra_on(k, *i)) {
+            f.anns.push(Facts::ann(k, XREC, "X", Some(LEAF0 + i as u32)));
+        }
     }
     drive::build(&f, Mode::Minimal).expect("staircase ontology must build")
 }
@@ -74,6 +90,9 @@ fn staircase_flagged(l: usize, kinds: &[Kind]) -> Result<Ontology, String> {
                 f.anns.push(Facts::ann(k, REC0 + j, &format!("R{j}"), Some(LEAF0 + i)));
             }
         }
+        for i in (1..=l).filter(|i| extra_on(k, *i)) {
+            f.anns.push(Facts::ann(k, XREC, "X", Some(LEAF0 + i as u32)));
+        }
     }
     match drive::from_bytes(&crate::encode::encode(&f, &crate::encode::EncOpts::v(3))) {
         Ok(Ok(o)) => Ok(o),
@@ -83,11 +102,12 @@ fn staircase_flagged(l: usize, kinds: &[Kind]) -> Result<Ontology, String> {
 }
 
 /// (id, count, pvalue, fold) per returned record
-fn run_enrichment(ont: &Ontology, kind: Kind, n_bg: usize, s: usize, n: usize) -> Vec<(u32, u64, f64, f64)> {
+/// `whole`: the background is `&ontology` itself (the documented call): the root and all leaves
+fn run_enrichment(ont: &Ontology, kind: Kind, n_bg: usize, s: usize, n: usize, whole: bool) -> Vec<(u32, u64, f64, f64)> {
     // The collections are handed over in different shapes, chosen deterministically per call:
     // exact-size iterators, filtering adapters over a larger collection (whose size_hint upper bound
-    // exceeds the real size), Vec, and HpoSet.
-    let shape = (n_bg + 2 * s + 3 * n) % 4;
+    // exceeds the real size), Vec, and HpoSet (as sample and as background).
+    let shape = if whole { 5 } else { (n_bg + 2 * s + 3 * n) % 5 };
     let all: Vec<hpo::HpoTerm> = ont.iter().collect();
     let in_bg = |t: &hpo::HpoTerm| {
         let id = hpo::annotations::AnnotationId::as_u32(&t.id());
@@ -105,6 +125,15 @@ fn run_enrichment(ont: &Ontology, kind: Kind, n_bg: usize, s: usize, n: usize) -
                 0 => $f(bg_vec.iter().copied(), sample_vec.iter().copied()),
                 1 => $f(all.iter().copied().filter(|t| in_bg(t)), all.iter().copied().filter(|t| in_sample(t))),
                 2 => $f(bg_vec.clone(), all.iter().copied().filter(|t| in_sample(t))),
+                4 => {
+                    let mut g = hpo::term::HpoGroup::new();
+                    for t in &bg_vec {
+                        g.insert(t.id());
+                    }
+                    let set = hpo::HpoSet::new(ont, g);
+                    $f(&set, sample_vec.clone())
+                }
+                5 => $f(ont, sample_vec.iter().copied()),
                 _ => {
                     let mut g = hpo::term::HpoGroup::new();
                     for t in &sample_vec {
@@ -203,13 +232,24 @@ impl PRef for LogDomain {
 /// Check one (N, n): every window start s, every record. Returns number of (record,window) evaluations.
 #[allow(clippy::too_many_arguments)]
 fn check_n_n(ctx: &mut Ctx, ont: &Ontology, l: usize, kind: Kind, big_n: usize, n: usize, starts: &[usize], pref: &dyn PRef, full_monotone: bool) -> u64 {
+    check_n_n_bg(ctx, ont, l, kind, big_n, n, starts, pref, full_monotone, false)
+}
+
+/// `whole`: the background is `&ontology` (needs big_n == l): the population is the root and the l leaves, and the
+/// root is linked to every record
+#[allow(clippy::too_many_arguments)]
+fn check_n_n_bg(ctx: &mut Ctx, ont: &Ontology, l: usize, kind: Kind, leaves_n: usize, n: usize, starts: &[usize], pref: &dyn PRef, full_monotone: bool, whole: bool) -> u64 {
     let mut evals = 0u64;
-    // last p seen per record for increasing k (s descending => k ascending)
-    let mut last: Vec<Option<(usize, f64)>> = vec![None; l + 1];
+    // population size, and what the root adds to every K
+    let (big_n, root) = if whole { (leaves_n + 1, 1usize) } else { (leaves_n, 0) };
+    // last p seen per record for increasing k (s descending => k ascending); slot l + 1 = the extra record
+    let mut last: Vec<Option<(usize, f64)>> = vec![None; l + 2];
+    let extra_k = (1..=leaves_n).filter(|i| extra_on(kind, *i)).count();
     for &s in starts {
         ctx.transitions(1);
-        let got = guard(|| run_enrichment(ont, kind, big_n, s, n));
-        let case = |extra: serde_json::Value| json!({"layout": "staircase: record j annotated to leaves 1..j", "N(background leaves 1..N)": big_n, "n(sample size)": n, "s(sample = leaves s..s+n-1)": s, "kind": kind.name(), "detail": extra});
+        let got = guard(|| run_enrichment(ont, kind, leaves_n, s, n, whole));
+        let case = |extra: serde_json::Value| json!({"layout": "staircase: record j annotated to leaves 1..j; extra record 4242 on the leaves 1, 5, 9.. (gene) / odd leaves (omim) / every third leaf (orpha)", "N(background leaves 1..N)": leaves_n, "background": if whole { "&ontology (root + all leaves)" } else { "the leaves 1..N" }, "n(sample size)": n, "s(sample = leaves s..s+n-1)": s, "kind": kind.name(), "detail": extra});
+        let extra_small_k = (s..s + n).filter(|i| extra_on(kind, *i)).count();
         let res = match got {
             Ok(r) => r,
             Err(p) => {
@@ -218,16 +258,15 @@ fn check_n_n(ctx: &mut Ctx, ont: &Ontology, l: usize, kind: Kind, big_n: usize, 
             }
         };
         // exactly one record per annotation with k >= 1
-        let mut seen = vec![false; l + 1];
+        let mut seen = vec![false; l + 2];
         for (id, count, p, fold) in &res {
-            let j = rec_no(*id);
-            if j == 0 || j > l || seen[j] {
+            let j = if *id == XREC { l + 1 } else { rec_no(*id) };
+            if j == 0 || (j > l && *id != XREC) || seen[j] {
                 ctx.violation(site(kind), "returns an unknown annotation or the same annotation twice", case(json!({"id": id})));
                 continue;
             }
             seen[j] = true;
-            let big_k = j.min(big_n);
-            let k = (j + 1).saturating_sub(s).min(n);
+            let (big_k, k) = if *id == XREC { (extra_k + root, extra_small_k) } else { (j.min(leaves_n) + root, (j + 1).saturating_sub(s).min(n)) };
             evals += 1;
             if k == 0 {
                 ctx.violation(site(kind), "reports an annotation that is linked to no sample term", case(json!({"record": j})));
@@ -272,6 +311,9 @@ fn check_n_n(ctx: &mut Ctx, ont: &Ontology, l: usize, kind: Kind, big_n: usize, 
                 ctx.violation(site(kind), "annotation linked to a sample term is missing from the result", case(json!({"record": j, "k": k})));
             }
         }
+        if extra_small_k >= 1 && !seen[l + 1] {
+            ctx.violation(site(kind), "annotation linked to a sample term is missing from the result", case(json!({"record": "the extra record 4242", "k": extra_small_k})));
+        }
     }
     ctx.execs(evals);
     ctx.validateds(evals);
@@ -280,18 +322,19 @@ fn check_n_n(ctx: &mut Ctx, ont: &Ontology, l: usize, kind: Kind, big_n: usize, 
 
 pub fn run(ctx: &mut Ctx) {
     let thorough = ctx.tier.thorough();
-    ctx.rule = "case = (kind, N, n) with every window start s = N-n+1 down to 1 (so every record's k grows step by step); staircase layout realises every admissible (N,K,n,k); evaluations = (record, window) pairs checked; distinct by construction; non-trivial = exact p strictly between 0 and 1".into();
+    ctx.rule = "case = (kind, N, n) with every window start s = N-n+1 down to 1 (so every record's k grows step by step); staircase layout realises every admissible (N,K,n,k); every staircase ontology also carries the extra record 4242, whose id is the same and whose leaves differ between the three kinds; evaluations = (record, window) pairs checked; distinct by construction; non-trivial = exact p strictly between 0 and 1".into();
     ctx.assumptions = vec![
         "p-values compared with rtol 1e-9 against exact big-integer binomial sums (N <= 200) and with rtol 1e-6 against a log-domain reference for the large-population slices; range, monotonicity, counts strict; fold change rtol 1e-12".into(),
         "sample terms are drawn from the background (property statement)".into(),
-        "background and sample are passed as exact-size iterators, filtering adapters over a larger collection, Vec and &HpoSet in rotation (the functions accept any IntoIterator)".into(),
+        "background and sample are passed as exact-size iterators, filtering adapters over a larger collection, Vec and &HpoSet (as sample and as background) in rotation, and `&ontology` as background (the functions accept any IntoIterator)".into(),
+        "strict by the statement: 0 <= p <= 1 and p never larger for a larger k (no rounding allowance); tails below the smallest normal f64 are compared on the subnormal grid (the value is P[X >= k], not 0)".into(),
     ];
     // ---- small populations, all kinds
     let nmax = if thorough { 64 } else { 30 };
     let ont = staircase(nmax, &KINDS);
     let exact = Exact(Binomials::new(210));
     for kind in KINDS {
-        ctx.space(&format!("exact/{}/N<={nmax}", kind.name()), &format!("all N <= {nmax}, all n <= N, all window starts; records 1..{nmax}"));
+        ctx.space(&format!("exact/{}/N<={nmax}", kind.name()), &format!("all N <= {nmax}, all n <= N, all window starts; records 1..{nmax} and the extra record (one id in the three kinds, another layout in each)"));
         for big_n in 1..=nmax {
             for n in 1..=big_n {
                 if !ctx.take() {
@@ -306,11 +349,37 @@ pub fn run(ctx: &mut Ctx) {
             }
         }
     }
+    // ---- the ontology itself as the background (the documented call) on staircases of every small size: the
+    // population is the root plus L leaves and the root is linked to every record (N = L + 1, K = j + 1) - a size
+    // taken from anything but counting the terms handed over shows here
+    {
+        let sizes: Vec<usize> = (1..=14).chain([30]).collect();
+        for kind in KINDS {
+            ctx.space(&format!("exact/{}/whole-ontology-background", kind.name()), &format!("staircase ontologies with L in {sizes:?} leaves, background = `&ontology` (root + L leaves), all n <= L, all window starts; records 1..L and the extra record"));
+            for &l in &sizes {
+                let mut ont: Option<Ontology> = None;
+                for n in 1..=l {
+                    if !ctx.take() {
+                        continue;
+                    }
+                    ctx.state();
+                    if ont.is_none() {
+                        ont = Some(staircase(l, &KINDS));
+                    }
+                    let starts: Vec<usize> = (1..=l - n + 1).rev().collect();
+                    check_n_n_bg(ctx, ont.as_ref().unwrap(), l, kind, l, n, &starts, &exact, true, true);
+                    if l == 7 && n == 3 {
+                        ctx.sample(|| json!({"kind": kind.name(), "background": "&ontology", "leaves": l, "n": n, "window_starts": starts}));
+                    }
+                }
+            }
+        }
+    }
     // ---- hierarchies: backgrounds and samples that contain ancestors together with their descendants, the root,
     // unannotated terms; the ontology itself as background (the documented call)
     for n in 2..=(if thorough { 4 } else { 3 }) {
         let dags = crate::space::all_dags(n);
-        ctx.space(&format!("hierarchy/D{n}"), &format!("{} labelled DAGs, record i of every kind on term i (inherited by its ancestors), a bare record: every non-empty background subset B (and `&ontology` itself) x every non-empty sample S within B x 3 kinds: one result per record linked to a sample term, K and k counted over inherited links, exact tail, fold", dags.len()));
+        ctx.space(&format!("hierarchy/D{n}"), &format!("{} labelled DAGs, record i on term i (genes) / i + 1 (OMIM) / i + 2 (ORPHA) cyclically (inherited by its ancestors), a bare record: every non-empty background subset B (and `&ontology` itself) x every non-empty sample S within B x 3 kinds: one result per record linked to a sample term, K and k counted over inherited links, exact tail, fold", dags.len()));
         for d in &dags {
             if !ctx.take() {
                 continue;
@@ -320,8 +389,10 @@ pub fn run(ctx: &mut Ctx) {
             let mut f = Facts::from_dag(d, &[1, 7, 118, 4000, 77_777, 9_999_999]);
             let ids: Vec<u32> = f.terms.iter().map(|t| t.id).collect();
             for kind in KINDS {
-                for (i, t) in ids.iter().enumerate() {
-                    f.anns.push(Facts::ann(kind, 50 + i as u32, &format!("R{i}"), Some(*t)));
+                // (the same ids in the three kinds, but on other terms: gene i on term i, OMIM i on term i + 1, ORPHA i on
+                // term i + 2 - a count read from another kind's links differs)
+                for i in 0..ids.len() {
+                    f.anns.push(Facts::ann(kind, 50 + i as u32, &format!("R{i}"), Some(ids[(i + kind.idx()) % ids.len()])));
                 }
                 f.anns.push(Facts::ann(kind, 99, "bare", None));
             }
@@ -398,7 +469,7 @@ pub fn run(ctx: &mut Ctx) {
         use super::setroutes;
         let f = setroutes::facts();
         let depth = if thorough { 3 } else { 2 };
-        ctx.space("sample-sets/construction-routes", &format!("{}; every sequence of <= {depth} operations; after every sequence the three enrichments of the set against `&ontology`: one result per record linked to a member, k counted over the distinct members, exact tail, fold - and identical to the enrichment of a freshly constructed set with the same members", setroutes::DESCRIPTION));
+        ctx.space("sample-sets/construction-routes", &format!("{}; every sequence of <= {depth} operations; after every sequence the three enrichments of the set against `&ontology`: one result per record linked to a member, k counted over the distinct members, exact tail, fold - and equal to the enrichment of a freshly constructed set with the same members", setroutes::DESCRIPTION));
         match drive::from_bytes(&crate::encode::encode(&f, &crate::encode::EncOpts::v(3))) {
             Ok(Ok(ont)) => {
                 let r = crate::model::RefOnt::derive(&f);
@@ -443,8 +514,10 @@ pub fn run(ctx: &mut Ctx) {
                             let case = |extra: serde_json::Value| json!({"facts": f.to_json(), "set": format!("{start_name} then {ops:?}"), "background": "&ontology", "kind": kind.name(), "detail": extra});
                             let (distinct, res, res_fresh) = match got {
                                 Ok(Some(x)) => x,
+                                // (that a record of a decoded file is found by its id is C02's / C08's statement: without
+                                // the record there is no start set, and nothing of this property to judge)
                                 Ok(None) => {
-                                    ctx.violation("Ontology::gene", "record of a decoded file not found", case(json!({})));
+                                    ctx.bump("start_record_not_found_no_verdict", 1);
                                     break 'seqs;
                                 }
                                 Err(p) => {
@@ -452,7 +525,7 @@ pub fn run(ctx: &mut Ctx) {
                                     break 'seqs;
                                 }
                             };
-                            let same = res.len() == res_fresh.len() && res.iter().zip(&res_fresh).all(|(x, y)| x.0 == y.0 && x.1 == y.1 && x.2.to_bits() == y.2.to_bits() && x.3.to_bits() == y.3.to_bits());
+                            let same = res.len() == res_fresh.len() && res.iter().zip(&res_fresh).all(|(x, y)| x.0 == y.0 && x.1 == y.1 && (x.2 - y.2).abs() <= 1e-12 * y.2.abs() && (x.3 - y.3).abs() <= 1e-12 * y.3.abs());
                             if !same {
                                 ctx.violation(site(kind), "[set built by a sequence of set operations] differs from the enrichment of a freshly constructed set with the same members", case(json!({"members": distinct, "observed": format!("{res:?}"), "fresh_set": format!("{res_fresh:?}")})));
                                 break 'seqs;
@@ -512,12 +585,13 @@ pub fn run(ctx: &mut Ctx) {
     }
     // ---- record ids from a spread pool (the staircases above use ids 5001..): N <= 12, all kinds
     {
-        let pool: Vec<u32> = vec![0, 1, 255, 256, 65_535, 65_536, (1 << 24) + 1, 100_000_007, u32::MAX - 1, u32::MAX, 0x8000_0000, 77, 5000];
+        // (index 0 is not used: record numbers start at 1; the id 0 is record 1)
+        let pool: Vec<u32> = vec![5000, 0, 1, 255, 256, 65_535, 65_536, (1 << 24) + 1, 100_000_007, u32::MAX - 1, u32::MAX, 0x8000_0000, 77];
         REC_IDS.with(|m| *m.borrow_mut() = Some(pool.clone()));
         let l = 12usize;
         let sp = staircase(l, &KINDS);
         for kind in KINDS {
-            ctx.space(&format!("exact/{}/spread-record-ids/N<=12", kind.name()), &format!("records with the ids {:?}: all N <= 12, all n <= N, all window starts", &pool[1..=l]));
+            ctx.space(&format!("exact/{}/spread-record-ids/N<=12", kind.name()), &format!("records with the ids {:?} (and the extra record): all N <= 12, all n <= N, all window starts", &pool[1..=l]));
             for big_n in 1..=l {
                 for n in 1..=big_n {
                     if !ctx.take() {
@@ -675,15 +749,16 @@ pub fn run(ctx: &mut Ctx) {
     // 60 001..100 000, every 2500th, every 143rd and every 11th leaf; samples of 50 and 1000 consecutive leaves,
     // 1000 evenly spread leaves, and the big samples whose count PRODUCTS exceed 32 bits
     {
-        ctx.space("huge/N<=100000", "flat ontology with 100 000 leaves; records {1: leaves 1..70000, 2: 60001..100000, 3: every 2500th, 4: every 143rd, 5: every 11th} of each kind; backgrounds = the first N leaves, N in {4097, 18500, 65537, 100000}; samples {first 50, first 1000, 1000 evenly spread, and for N = 100000: 1..42000, 1..43000, 30001..100000, all}: one record per linked annotation, count, fold enrichment exactly, p-value against the log-domain reference (rtol 1e-6)");
+        ctx.space("huge/N<=100000", "flat ontology with 100 000 leaves; records {1: leaves 1..70000, 2: 60001..100000, 3: every 2500th, 4: every 143rd, 5: every 11th (3 - 5 shifted by 0 / 1 / 2 leaves for gene / OMIM / ORPHA), 6: leaves 1..50000} of each kind; backgrounds = the first N leaves, N in {4097, 18500, 65537, 100000}; samples {first 50, first 1000, 1000 evenly spread, and for N = 100000: 1..42000, 1..43000, 30001..100000, all, 10001..10010 + 50001..99990 (record 6: a tail of 49 991 terms)}: one record per linked annotation, count, fold enrichment exactly, p-value against the log-domain reference (rtol 1e-6)");
         let total = 100_000usize;
-        let pred = |rec: u32, i: usize| -> bool {
+        let pred = |kind: Kind, rec: u32, i: usize| -> bool {
             match rec {
                 1 => i <= 70_000,
                 2 => i >= 60_001,
-                3 => i % 2500 == 0,
-                4 => i % 143 == 0,
-                _ => i % 11 == 0,
+                3 => i % 2500 == kind.idx(),
+                4 => i % 143 == kind.idx(),
+                5 => i % 11 == kind.idx(),
+                _ => i <= 50_000,
             }
         };
         let mut cases: Vec<(usize, Vec<usize>, String)> = vec![];
@@ -696,6 +771,9 @@ pub fn run(ctx: &mut Ctx) {
         for (lo, hi) in [(1usize, 42_000usize), (1, 43_000), (30_001, 100_000), (1, 100_000)] {
             cases.push((total, (lo..=hi).collect(), format!("leaves {lo}..={hi}")));
         }
+        // a tail of 49 991 terms (more than any 15- or 16-bit bound on the number of summands): record 6 has
+        // K = 50 000, the sample holds 10 of its leaves and 49 990 others (n = 50 000, k = 10, P[X >= 10] ~ 1)
+        cases.push((total, (10_001..=10_010).chain(50_001..=99_990).collect(), "leaves 10001..=10010 and 50001..=99990".into()));
         let mut ont: Option<Ontology> = None;
         let mut lref: Option<LogDomain> = None;
         for (big_n, sample, label) in &cases {
@@ -712,9 +790,9 @@ pub fn run(ctx: &mut Ctx) {
                     f.edges.push((LEAF0 + i, 1));
                 }
                 for kind in KINDS {
-                    for rec in 1..=5u32 {
+                    for rec in 1..=6u32 {
                         for i in 1..=total {
-                            if pred(rec, i) {
+                            if pred(kind, rec, i) {
                                 f.anns.push(Facts::ann(kind, rec, "R", Some(LEAF0 + i as u32)));
                             }
                         }
@@ -743,7 +821,7 @@ pub fn run(ctx: &mut Ctx) {
                     v.sort_by_key(|x| x.0);
                     v
                 });
-                let case = |extra: serde_json::Value| json!({"layout": "100 000 leaves; records 1: leaves 1..70000, 2: 60001..100000, 3: every 2500th, 4: every 143rd, 5: every 11th leaf", "background": format!("the first {big_n} leaves"), "sample": label, "kind": kind.name(), "detail": extra});
+                let case = |extra: serde_json::Value| json!({"layout": "100 000 leaves; records 1: leaves 1..70000, 2: 60001..100000, 3: every 2500th, 4: every 143rd, 5: every 11th leaf (shifted by 0 / 1 / 2 for gene / omim / orpha), 6: leaves 1..50000", "background": format!("the first {big_n} leaves"), "sample": label, "kind": kind.name(), "detail": extra});
                 let res = match got {
                     Ok(r) => r,
                     Err(p) => {
@@ -751,7 +829,7 @@ pub fn run(ctx: &mut Ctx) {
                         continue;
                     }
                 };
-                let want: Vec<(u32, usize, usize)> = (1..=5u32).map(|rec| (rec, (1..=big_n).filter(|i| pred(rec, *i)).count(), sample.iter().filter(|i| pred(rec, **i)).count())).filter(|w| w.2 > 0).collect();
+                let want: Vec<(u32, usize, usize)> = (1..=6u32).map(|rec| (rec, (1..=big_n).filter(|i| pred(kind, rec, *i)).count(), sample.iter().filter(|i| pred(kind, rec, **i)).count())).filter(|w| w.2 > 0).collect();
                 if res.len() != want.len() || res.iter().zip(&want).any(|(r, w)| r.0 != w.0) {
                     ctx.violation(site(kind), "not exactly one record per annotation linked to a sample term", case(json!({"observed_ids": res.iter().map(|r| r.0).collect::<Vec<_>>(), "expected_ids": want.iter().map(|w| w.0).collect::<Vec<_>>()})));
                     continue;
